@@ -304,6 +304,41 @@ def run_case(case):
                     ((resl[1] - lad).abs() <= 1e-11 * (1 + lad.abs())).all()):
                 r.viol("layout_dependence", "%s results depend on the memory layout of the inputs" % fam, layout=lname,
                        direction=direction, mask=mask, max_diff=float((outl - out).abs().max()), cfg=cfg)
+        # ---- (a2) broadcast inputs (stride 0 along the batch or the feature axis, as `row.expand(B, D)` gives): an output buffer laid
+        #      out "like the input" would overlap itself.  Compared with the same values stored densely.
+        for ename, ze in (("expanded_rows", z[:1].expand(*z.shape)), ("expanded_features", z[:, :1].expand(*z.shape))):
+            if direction != "forward" and me["dom_in"] != me["dom_out"]:
+                continue
+            rese = _call(r, fn, ze, ctx, direction, fam, cfg)
+            resd = _call(r, fn, ze.contiguous(), ctx, direction, fam, cfg)
+            if rese is None or resd is None:
+                continue
+            r.ev()
+            r.count("layout_checks")
+            oe, od = rese[0].detach(), resd[0].detach()
+            if oe.shape != od.shape or not bool(((oe - od).abs() <= 1e-12 * (1 + od.abs()))[torch.isfinite(od)].all()):
+                r.viol("layout_dependence", "%s results depend on the memory layout of the inputs" % fam, layout=ename,
+                       direction=direction, mask=mask, cfg=cfg)
+            elif not uncond and not ww.same_bits(oe[:, I], ze[:, I].contiguous()):
+                r.viol("identity_changed", "%s identity features are not returned bit-for-bit" % fam, direction=direction,
+                       mask=mask, layout=ename, cfg=cfg)
+        # ---- (a3) an identity feature holding +-inf (a float value like any other for "returned bit-for-bit"; what the conditioner
+        #      makes of it is its business): forward direction, the identity features of that row come back as they went in
+        if direction == "forward" and not uncond and I and z.is_floating_point():
+            zi = z.clone()
+            zi[-1, I[0]] = float("inf")
+            if len(I) > 1:
+                zi[-1, I[-1]] = float("-inf")
+            try:
+                with torch.no_grad():
+                    oi = fn(zi, ctx)[0]
+                r.ev()
+                r.count("identity_bitwise_checks")
+                if oi.shape != zi.shape or not ww.same_bits(oi[:, I], zi[:, I]):
+                    r.viol("identity_changed", "%s identity features are not returned bit-for-bit" % fam, direction=direction, mask=mask,
+                           values="+-inf", cfg=cfg)
+            except Exception:
+                r.count("nonfinite_identity_call_raised")
         # ---- (b) perturb one element of a transformed feature
         own_moved = False
         for j in T:
